@@ -17,6 +17,7 @@ vg_cfg_flags() {
     r1) echo "--tl2WhiteList=w. --generateRandomCode" ;;
     r2) echo "--tl2WhiteList=w.leaf,w.fRes,u.AloneUn,plain --generateRandomCode" ;;
     r3) echo "--tl2WhiteList=* --generateRandomCode --generateByteVersions=*" ;;
+    r4) echo "--tl2WhiteList=* --generateRandomCode --split-internal" ;;
     *) echo "unknown cfg $1" >&2; return 2 ;;
   esac
 }
